@@ -3,7 +3,7 @@
 # in the property's scratch worktree /tmp/wt_<P> and runs the checks against a scratch copy of /repo with the patch applied.
 set -u
 SD=$1; shift; P=${SD%%-*}; CHECKS=${@:-$P}
-WT=/tmp/wt_$P
+WT=${WTPREFIX:-/tmp/wt_}$P
 D=/verif/seeded/$SD
 [ -d $WT ] || git -C /repo worktree add -q $WT HEAD
 ( cd $WT && git checkout -q -- . && git clean -fdq -e _seeded && git apply $D/patch.diff ) || { echo "PATCH DOES NOT APPLY"; exit 2; }
